@@ -120,10 +120,19 @@ impl From<PresentationProofValue> for DataIntegrityProofValue {
     }
 }
 
+#[derive(Debug, Clone, Default, PartialEq, Eq, Serialize, Deserialize)]
+pub enum CryptoSuite {
+    #[default]
+    #[serde(rename = "anoncreds-2023")]
+    AnonCreds2023,
+}
+
 #[derive(Debug, Clone, PartialEq, Eq, Serialize, Deserialize)]
-#[serde(tag = "cryptosuite", rename = "anoncreds-2023")]
 #[serde(rename_all = "camelCase")]
 pub struct DataIntegrityProof {
+    // a struct-level serde `tag` is written on serialisation but not checked on deserialisation:
+    // the cryptosuite is a member, so that a proof of another (or no) cryptosuite is not read as an AnonCreds proof
+    pub(crate) cryptosuite: CryptoSuite,
     #[serde(rename = "type")]
     pub(crate) type_: DataIntegrityProofType,
     pub(crate) proof_purpose: ProofPurpose,
@@ -142,6 +151,7 @@ impl DataIntegrityProof {
         challenge: Option<String>,
     ) -> Result<Self> {
         Ok(DataIntegrityProof {
+            cryptosuite: CryptoSuite::AnonCreds2023,
             type_: DataIntegrityProofType::DataIntegrityProof,
             proof_purpose,
             verification_method,
